@@ -2293,15 +2293,13 @@ impl Element for XmlElement {
 
     fn attributes(&self) -> UnorderedSet<XmlNode<XmlAttribute>> {
         let mut items = self.attributes_specified();
-        // A namespace declaration that is written on the element is specified too.
-        let declared = self.namespace_attributes();
 
         for attr in self.declaration_att_defs().as_slice() {
+            // A namespace declaration is no attribute, whether written or supplied
+            // by a default (it is among the namespace attributes).
             if attr.value != XmlDeclarationAttDefault::Implied
+                && !is_namespace_declaration(attr.qname())
                 && !items
-                    .iter()
-                    .any(|v| equal_qname(v.borrow().qname(), attr.qname()))
-                && !declared
                     .iter()
                     .any(|v| equal_qname(v.borrow().qname(), attr.qname()))
             {
@@ -2316,12 +2314,28 @@ impl Element for XmlElement {
     }
 
     fn namespace_attributes(&self) -> UnorderedSet<XmlNode<XmlAttribute>> {
-        let items = self
+        let mut items: Vec<XmlNode<XmlAttribute>> = self
             .attributes
             .iter()
             .filter_map(|v| v.as_attribute())
             .filter(|v| v.borrow().namespace())
             .collect();
+
+        // A namespace declaration is supplied by an attribute default as well
+        // (Namespaces in XML 1.0, 3: "directly or by default").
+        for attr in self.declaration_att_defs().as_slice() {
+            if matches!(attr.value, XmlDeclarationAttDefault::Value(..))
+                && is_namespace_declaration(attr.qname())
+                && !items
+                    .iter()
+                    .any(|v| equal_qname(v.borrow().qname(), attr.qname()))
+            {
+                let attr = XmlAttribute::new_from_declaration(attr, self.context());
+                attr.borrow_mut().set_parent_id(Some(self.id()));
+                items.push(attr);
+            }
+        }
+
         UnorderedSet::new(items)
     }
 
@@ -4594,6 +4608,14 @@ fn delete_char_range(value: &str, offset: usize, count: usize) -> String {
     chars.drain(s..e);
 
     chars.iter().collect()
+}
+
+/// `xmlns` or `xmlns:p` (`p:xmlns` is an ordinary attribute name).
+fn is_namespace_declaration(name: xml_nom::model::QName) -> bool {
+    match name {
+        xml_nom::model::QName::Prefixed(n) => n.prefix == "xmlns",
+        xml_nom::model::QName::Unprefixed(n) => n == "xmlns",
+    }
 }
 
 fn equal_qname(a: xml_nom::model::QName, b: xml_nom::model::QName) -> bool {
